@@ -96,4 +96,22 @@ partial def loop (handle : Json → Except String Json) (h : IO.FS.Stream) (out 
   out.putStrLn res.compress
   loop handle h out
 
+
+abbrev Op := String → Json → Except String (Option Json)
+
+/-- answer `{"model": …, "spec": …}` for one case -/
+def handleBoth (specOp modelOp : Op) (j : Json) : Except String Json := do
+  let op ← jStr j "op"
+  let m ← modelOp op j
+  let s ← specOp op j
+  match m, s with
+  | none, none => .error s!"unknown op {op}"
+  | _, _ => pure (Json.mkObj [("model", m.getD .null), ("spec", s.getD .null)])
+
+def handleSpec (specOp : Op) (j : Json) : Except String Json := do
+  let op ← jStr j "op"
+  match ← specOp op j with
+  | none => .error s!"unknown op {op}"
+  | some s => pure (Json.mkObj [("spec", s)])
+
 end Driver
